@@ -149,6 +149,20 @@ class ThreadMonitor:
                 mon._exit(agent)
         return wrapped
 
+    def wrap_action(self, agent, f, what):
+        mon = self
+
+        def wrapped(*a, **k):
+            th = mon.sim.current
+            if agent.name in mon.ignore or any(t is th for t, _ in mon.active[agent.name]):
+                return f(*a, **k)                 # part of a callback already recorded
+            mon._enter(agent, what, "action")
+            try:
+                return f(*a, **k)
+            finally:
+                mon._exit(agent)
+        return wrapped
+
     def install(self):
         import pydcop.infrastructure.agents as agents
         mon = self
@@ -162,6 +176,14 @@ class ThreadMonitor:
                                ("pause", "pause")):
                 setattr(computation, meth, mon.wrap_callable(
                     agent, getattr(computation, meth), f"{name}.{meth}()", kind))
+            if not name.startswith("_discovery") and hasattr(computation, "post_msg"):
+                # an action of the computation witnessed by a message posted in its name: when
+                # it is not nested in one of the callbacks above (same thread), it is an action
+                # of its own (a periodic action, a timer) and must be on the agent's thread too.
+                # (The discovery computation is excluded: Messaging legitimately drives it from
+                # the posting thread when a destination is unknown.)
+                setattr(computation, "post_msg", mon.wrap_action(
+                    agent, computation.post_msg, f"{name}.post_msg()"))
 
         def set_periodic_action(agent, period, cb):
             return orig_periodic(agent, period, mon.wrap_callable(
